@@ -197,6 +197,9 @@ class World:
             dup = cache_duplicates(res.after.get(self.cache_rel))
             if dup:
                 res.violations.append(viol('cache.duplicate_record', {}, keys=dup[:3]))
+            bad = cache_comparison_mismatches(res.after, self.cache_rel, sb)
+            if bad:
+                res.violations.append(viol('cachecmp.recorded_result_differs_from_the_file', {'comparison': bad[0][1]}, records=bad[:3]))
         res.real_inv = it.invocations
         res.npoints = it.npoints
         res.bf_paths = log['bf_paths']
@@ -584,6 +587,41 @@ def cache_duplicates(entry):
                 walk(o.get('suboperations', []))
     walk(j.get('rootOperations', []))
     return dup
+
+
+def cache_comparison_mismatches(snap, cache_rel, sb):
+    """Invariant of a committed cache file: the comparison result recorded for
+    a successfully built output (size + mtime_ns, or the SHA-256 of the bytes)
+    is that of the file as the build left it (no driver function touches an
+    output after its build_file call returned)."""
+    entry = snap.get(cache_rel)
+    if entry is None or entry[0] != 'f':
+        return []
+    try:
+        j = json.loads(gzip.decompress(entry[1]))
+    except Exception:
+        return []
+    bad = []
+
+    def walk(ops):
+        for o in ops:
+            if o.get('type') == 'build_file' and not o.get('raised') and not o.get('setupFailed'):
+                rel = sb.rel(o.get('filename'))
+                f = snap.get(rel)
+                rec = o.get('fileComparisonResult')
+                if f is None or f[0] != 'f':
+                    want = None
+                elif o.get('fileComparison') == 'HASH':
+                    want = hashlib.sha256(f[1]).hexdigest()
+                else:
+                    want = {'size': len(f[1]), 'timeNs': f[2]}
+                if rec != want and want is not None:
+                    bad.append([rel, o.get('fileComparison'), 'recorded %s, the file has %s' % (
+                        json.dumps(rec, sort_keys=True)[:24], json.dumps(want, sort_keys=True)[:24])])
+            if o.get('type') in ('build_file', 'subbuild'):
+                walk(o.get('suboperations', []))
+    walk(j.get('rootOperations', []))
+    return bad
 
 
 def _collect_times(j, out):
